@@ -64,3 +64,13 @@ func verifHosts(l *roundRobinLoadBalancer) []*Host { return l.hosts.Load().([]*H
 //@   ensures add-last: typeis(event, *AddEvent) ==> verifHosts(l)[len(verifHosts(l))-1] == old(as(event, *AddEvent).Host)
 //@   ensures remove-len: typeis(event, *RemoveEvent) ==> len(verifHosts(l)) == old(len(verifHosts(l))) || len(verifHosts(l)) == old(len(verifHosts(l))) - 1
 //@   modifies l.hosts
+
+// Constructors used by proxy.Run (fresh objects; no effect on the caller's state).
+//@ func proxycore.NewResolverWithDefaultPort
+//@   trusted
+//@   ensures result != nil
+//@   modifies nothing
+
+//@ func proxycore.NewPasswordAuth
+//@   trusted
+//@   modifies nothing
